@@ -58,6 +58,9 @@ META = dict(
         "and run on all undirected graphs; nsi_betweenness only undirected"],
 )
 
+META["rule"] += (
+    " " + 'Added after the second round of seeded changes: average path length, the closeness family and global efficiency also on directed and on disconnected graphs.')
+
 # typical weights: chosen so that the corrected degree k/tw - 1 (a factor of
 # the corrected clustering denominators) cannot vanish exactly for integer
 # or split-integer node weights - at such points the measure is 0/0
